@@ -5,6 +5,7 @@ import (
 	"encoding/json"
 	"fmt"
 	"math/big"
+	"os"
 	"sort"
 	"strconv"
 	"strings"
@@ -674,6 +675,9 @@ func (w *World) doRelay(in Intent) {
 			call.Info["full"] = "1" // the relayer submits every confirmation the hub has
 		}
 		w.preExtCall(call, s, nil, nil, sigs)
+		if os.Getenv("MHUBSIM_DEBUG") != "" {
+			fmt.Fprintf(os.Stderr, "relay valset %d on %s: hub observed nonce %d members %v | contract nonce %d members %v\n", s.Nonce, in.Chain, curNonce, cur, e.ValsetNonce, e.Valset)
+		}
 		call.Err = e.UpdateValset(membersOf(s), s.Nonce, cur, curNonce, sigs)
 		w.postExtCall(call)
 	case "batch", "batch_stale":
